@@ -60,6 +60,19 @@ impl<K, V> SdkMap<K, V> {
     pub fn contains_key(&self, k: K) -> (r: bool) ensures r == smap_get(self@, k).is_some() { unimplemented!() }
     #[verifier::external_body]
     pub fn set(&mut self, k: K, v: V) ensures final(self)@ == smap_set(old(self)@, k, v) { unimplemented!() }
+    /// traps when the key is absent
+    #[verifier::external_body]
+    pub fn get_unchecked(&self, k: K) -> (r: V) ensures smap_get(self@, k) == Some(r) { unimplemented!() }
+    #[verifier::external_body]
+    pub fn remove(&mut self, k: K) -> (r: Option<()>)
+        ensures r.is_some() == (smap_idx(old(self)@, k) >= 0),
+            final(self)@ == (if smap_idx(old(self)@, k) >= 0 { old(self)@.remove(smap_idx(old(self)@, k)) } else { old(self)@ }),
+    { unimplemented!() }
+    /// traps when the key is absent
+    #[verifier::external_body]
+    pub fn remove_unchecked(&mut self, k: K)
+        ensures smap_idx(old(self)@, k) >= 0, final(self)@ == old(self)@.remove(smap_idx(old(self)@, k)),
+    { unimplemented!() }
     /// values / keys in iteration order
     #[verifier::external_body]
     pub fn values(&self) -> (r: Vec<V>) ensures r@ == smap_vals(self@) { unimplemented!() }
